@@ -7,6 +7,7 @@ package main
 // the real Parser.ParseValExp.
 
 import (
+	"fmt"
 	"strconv"
 	"strings"
 
@@ -161,6 +162,27 @@ func c08LrSem(c *Ctx) {
 		}
 	}
 
+	// bounded-exhaustive: EVERY token sequence of length <= 4 (thorough: <= 5) over an alphabet with one
+	// token of each kind the value-expression grammar distinguishes (18 tokens), compared inside the driver
+	maxLen := 4
+	if c.Thorough {
+		maxLen = 5
+	}
+	for k := 0; k <= maxLen; k++ {
+		rep := c.Drv.Ask("C08.lrexh", strconv.Itoa(k))
+		f := strings.Fields(rep)
+		if len(f) < 3 {
+			fatal("C08.lrexh: bad reply %q", rep)
+		}
+		nseq, _ := strconv.Atoi(f[0])
+		r.Evals += nseq
+		r.hist(fmt.Sprintf("lr-vs-reader:exhaustive-length-%d:%s-sequences:%s-accepted", k, f[0], f[1]))
+		if f[2] != "all-same" {
+			r.violate(Violation{Kind: "correspondence", Key: "C08:lr-vs-reader-mismatch",
+				What:  fmt.Sprintf("bounded-exhaustive comparison (all token sequences of length %d): the goyacc parser model and x-c09's reader disagree", k),
+				Input: strings.Join(f[3:], " "), Broken: "hypothesis LRAgrees of Props/C09Tie.lean"})
+		}
+	}
 	// call statements: `file: call_stm` through the goyacc model vs x-c09's pCall2
 	nc := 3000
 	if c.Thorough {
